@@ -16,7 +16,7 @@ LEAN_TARGETS = ["RxProofs.C07"]
 DRIVER = "drv_ops"
 DRIVER_ROOT = "Ops"
 THEOREMS = [
-    "C07.slice_eq_pyslice", "C07.pipe_eq_eval", "C07.slice_ops_eq", "C07.slice_negative_step",
+    "C07.slice_eq_pyslice", "C07.pyslice_eq_index_form", "C07.pipe_eq_eval", "C07.slice_ops_eq", "C07.slice_negative_step",
     "C07.slice_error_passthrough", "C07.getitem_int_nonneg", "C07.getitem_minus_one",
     "C07.slice_asis_stages", "C07.slice_neg_start_counter", "C07.slice_neg_start_counter2",
 ]
@@ -36,7 +36,7 @@ VALS = [0, 1, 2, 3, None, "", False, (), 7]
 
 # ----------------------------------------------------------------------------------------- generated, timed
 def cases(rng, tier):
-    for _ in range(fw.tier_scale(tier, 1500, 20000)):
+    for _ in range(fw.tier_scale(tier, 1200, 20000)):
         alphabet = [enc(v) for v in rng.sample(VALS, rng.choice([2, 3, 4]))]
         inp = C05.gen_timeline(rng, lambda: rng.choice(alphabet))
         n = sum(1 for t, x in inp if x[0] == "N")
@@ -223,9 +223,9 @@ def extra(rng, tier):
             if "pipe" not in m or m["pipe"] != real or m["eval"] != [n[1] for n in m["pipe"] if n[0] == "N"]:
                 n_corr += 1
                 failures.append(fw.Failure("correspondence", c, {"impl": real, "model": m}))
-            elif m["py"] != xs[c["start"]:c["stop"]:c["step"]]:
+            elif m["py"] != xs[c["start"]:c["stop"]:c["step"]] or m["pyidx"] != m["py"]:
                 n_corr += 1
-                failures.append(fw.Failure("correspondence", c, {"python_slice": xs[c["start"]:c["stop"]:c["step"]], "lean_pySlice": m["py"]}))
+                failures.append(fw.Failure("correspondence", c, {"python_slice": xs[c["start"]:c["stop"]:c["step"]], "lean_pySlice": m["py"], "lean_pySliceIdx": m["pyidx"]}))
     cov = {"exhaustive": True, "exhaustive_space": "len 0..7 x start,stop in {None,-9..9} x step in {None,1..8} on ops.slice and source[a:b:c]; "
            "i in -9..9 on source[i]", "exhaustive_cases": len(items), "exhaustive_oracle_failures": n_oracle,
            "exhaustive_correspondence_mismatches": n_corr}
@@ -240,5 +240,6 @@ LEVEL_TEXT = ("Lean theorems: slice_eq_pyslice — for every list, every start/s
               "and timed differential runs on generated hot timelines.")
 LEVEL_NOTE = ("Full for step >= 1 under len <= sys.maxsize. The model is the FIXED slice_ (fixes/C07_slice_negative_start.patch; the fix tags elements "
               "with scan, modelled by scanSeedOp); the pinned behaviour is `pipeline false` with counter-example theorems slice_neg_start_counter(2) "
-              "(range(10)[-2:9] -> [7,8], [-3:5] -> [2,3,4]). pySlice is stated as clamp + segment + stride; its agreement with Python's own slicing "
-              "is checked exhaustively by the driver, not proved. source[-1] = list[-1:0] = [] is the documented desugaring (not claimed wrong).")
+              "(range(10)[-2:9] -> [7,8], [-3:5] -> [2,3,4]). pySlice is stated as clamp + segment + stride and proved equal to the index comprehension over range(s, e, step) "
+              "(pyslice_eq_index_form); that both agree with CPython's own list slicing is checked exhaustively through the driver, not proved "
+              "(CPython is outside the model). source[-1] = list[-1:0] = [] is the documented desugaring (not claimed wrong).")
